@@ -72,3 +72,19 @@ Theorem C19_episode_override : forall (T : Type) (skn : nat -> string) (s : stag
 Proof. intros. split; [exact (feature_names_out_override skn s epf d user latex)|exact (feature_names_out_none skn s epf d user latex)]. Qed.
 Print Assumptions C19_episode_override.
 
+
+(* ---------- recorded finding F14: compound bases are printed without brackets.  Kernel-computed
+   witness on the model of [BilinearInputLiftingFn; PolynomialLiftingFn(order 2)] with 2 states and
+   1 input: the column named "x1*u0^2" holds (x1*u0)^2, and two different columns share a name. *)
+From PK Require Import Refuted.
+
+Theorem C19_readback_refuted :
+  exists j, nth j f14_strings ""%string = "x1*u0^2"%string /\ f14_value j = 36%Z /\ (2 * (3 * 3) = 18)%Z.
+Proof. exact f14_misleading_name. Qed.
+Print Assumptions C19_readback_refuted.
+
+Theorem C19_names_not_injective_refuted :
+  exists i j, i <> j /\ nth i f14_strings ""%string = nth j f14_strings ""%string
+              /\ nth i f14_names (NOne Z) <> nth j f14_names (NOne Z).
+Proof. exact f14_duplicate_names. Qed.
+Print Assumptions C19_names_not_injective_refuted.
